@@ -232,7 +232,16 @@ def run_given(ctx, acc, check, strategy, judge, *, seed, n, shrink_cap_s=None, t
 
     if shrink_cap_s is None:
         shrink_cap_s = 240 if ctx.thorough else 40
-    state = {"t_fail": None, "failing": {}, "last": None}
+    state = {"t_fail": None, "failing": {}, "last": None, "best": None}
+
+    class _AbortShrink(BaseException):
+        pass
+
+    def _remember(case, v):
+        state["last"] = (case, v)
+        size = len(json.dumps(jsonable(case), default=repr))
+        if state["best"] is None or size < state["best"][0]:
+            state["best"] = (size, case, v)
 
     @hypothesis.seed(seed)
     @settings(
@@ -248,14 +257,13 @@ def run_given(ctx, acc, check, strategy, judge, *, seed, n, shrink_cap_s=None, t
     @given(strategy)
     def test(x):
         case = to_case(x) if to_case else x
+        if state["t_fail"] is not None and time.time() - state["t_fail"] > shrink_cap_s:
+            raise _AbortShrink()  # wall cap on shrinking: keep the smallest failing example seen so far
         h = case_hash(case)
         if h in state["failing"]:
             state["last"] = (case, state["failing"][h])
             raise state["failing"][h]
-        if state["t_fail"] is not None:
-            if time.time() - state["t_fail"] > shrink_cap_s:
-                return  # stop shrinking: treat further candidates as passing
-        elif ctx.expired():
+        if state["t_fail"] is None and ctx.expired():
             acc.note("skipped_budget")
             return
         try:
@@ -264,13 +272,18 @@ def run_given(ctx, acc, check, strategy, judge, *, seed, n, shrink_cap_s=None, t
             state["failing"][h] = v
             if state["t_fail"] is None:
                 state["t_fail"] = time.time()
-            state["last"] = (case, v)
+            _remember(case, v)
             raise
 
     try:
         test()
     except Violation:
         case, v = state["last"]
+        acc.fail(check, case, v.observed, v.expected, known=v.known, bucket=v.bucket)
+        return False
+    except _AbortShrink:
+        _, case, v = state["best"]
+        acc.note("shrink_capped")
         acc.fail(check, case, v.observed, v.expected, known=v.known, bucket=v.bucket)
         return False
     except hypothesis.errors.Flaky as e:  # includes FlakyFailure
@@ -475,6 +488,7 @@ def _main(cid, a, seed, deadline, scratch, t0):
     ctx = Ctx(a.tier, seed, deadline, scratch, 0)
 
     if a.replay:
+        a.replay = os.path.abspath(a.replay)
         with open(a.replay) as fh:
             rep = json.load(fh)
         os.makedirs(os.path.join(scratch, "replay"), exist_ok=True)
